@@ -748,6 +748,12 @@ class Parser:
             return self.parse_block()
         if v in ('true', 'false'):
             return ('bool', v == 'true')
+        if v == 'vec!' and self.accept('['):
+            es = []
+            while not self.accept(']'):
+                es.append(self.parse_expr())
+                self.accept(',')
+            return ('veclit', es)
         if v in ('panic!', 'unreachable!', 'todo!'):
             self.expect('(')
             depth = 1
@@ -1025,6 +1031,8 @@ class Emitter:
             return ('(%s.getLast? == some %d)' % (sx, e[2][1]) if e[2][0] == 'lit' else '(!(%s).isEmpty)' % sx), 'bool'
         if k == 'nil':
             return '([] : List Nat)', 'slice'
+        if k == 'veclit':
+            return '([%s] : List Nat)' % ', '.join(self.expr(x, env, 'u64')[0] for x in e[1]), 'slice'
         if k == 'match':
             return self.match_expr(e, env, exp)
         if k == 'if':
@@ -1624,6 +1632,19 @@ class Emitter:
             sk, _ = self.expr(args[0], env, 'usize')
             if tr0 == 'slice':
                 return '(Rs.isCharBoundary %s %s)' % (sr0, sk), 'bool'
+        if name == 'len' and not args and getattr(self, 'str_params', None) == 'panics' and recv[0] == 'path' \
+                and len(recv[1]) == 1 and recv[1][0] in getattr(self, 'str_vars', ()):
+            sr0, _ = self.expr(recv, env, None)
+            return '(Rs.utf8Len %s)' % sr0, 'usize'
+        if name == 'split_at' and len(args) == 1 and getattr(self, 'str_params', None) == 'panics':
+            # `str::split_at(k)` panics when `k` is not a character boundary: `none`
+            sr0, tr0 = self.expr(recv, env, None)
+            sk, _ = self.expr(args[0], env, 'usize')
+            if tr0 == 'slice':
+                return ('(if Rs.isCharBoundary %s %s then some (Rs.splitAtByte %s %s) else none)' % (sr0, sk, sr0, sk),
+                        ('option', ('tuple', ['slice', 'slice'])))
+        if name == 'chars' and not args and getattr(self, 'str_params', None) is not None:
+            return self.expr(recv, env, exp)             # the characters of a `str`: the list itself
         if name == 'split_at' and len(args) == 1 and getattr(self, 'str_params', None) is not None:
             sr0, tr0 = self.expr(recv, env, None)
             sk, _ = self.expr(args[0], env, 'usize')
@@ -1800,7 +1821,7 @@ class Emitter:
                 return '(match %s with\n  | some %s => %s\n  | none => %s)' % (sr, lean_ident(x), sb, sd), tb
         if tr in ('slice', 'mutslice') and name == 'is_empty' and not args:
             return '(%s).isEmpty' % sr, 'bool'
-        if (tr in ('slice', 'mutslice', 'uint') or (isinstance(tr, tuple) and tr[0] == 'array')) and name == 'len':
+        if (tr in ('slice', 'mutslice', 'uint') or (isinstance(tr, tuple) and tr[0] == 'array')) and name in ('len', 'count_'):
             return '(%s).length' % sr, 'usize'
         if tr == 'uint' and ('Uint::' + name) in self.fns:
             sig = self.fns['Uint::' + name]
@@ -1923,6 +1944,8 @@ class Emitter:
         if not (isinstance(e, tuple) and e):
             return False
         if e[0] == 'mcall' and e[2] in ('expect', 'unwrap'):
+            return True
+        if e[0] == 'mcall' and e[2] == 'split_at' and getattr(self, 'str_params', None) == 'panics':
             return True
         if e[0] == 'bin' and e[1] in ('/', '%') and getattr(self, 'div_panics', False):
             return True            # `Div` / `Rem for Uint` panic on a zero divisor (item flag `div_panics`: every `/`, `%` is one)
@@ -2157,7 +2180,8 @@ class Emitter:
         """`for <pat> in <iterator>` over slices/arrays, `zip`s of them, with `.iter()`, `.iter_mut()`, `.rev()`:
         -> ([(pattern variable, array variable)], reversed?)"""
         rev = False
-        while it[0] == 'refmut' or (it[0] == 'mcall' and it[2] in ('iter', 'iter_mut', 'rev', 'into_iter') and not it[3]):
+        while it[0] == 'refmut' or (it[0] == 'mcall' and it[2] in ('iter', 'iter_mut', 'rev', 'into_iter') and not it[3]) \
+                or (it[0] == 'mcall' and it[2] == 'chars' and not it[3] and getattr(self, 'str_params', None) is not None):
             if it[0] == 'mcall' and it[2] == 'rev':
                 rev = not rev
             it = it[1]
@@ -2267,9 +2291,9 @@ class Emitter:
                 return node
             nb = ('block', subst(body[1]))
             # a zip stops at the shortest operand
-            hi = ('mcall', ('path', [pairs[0][1]]), 'len', [])
+            hi = ('mcall', ('path', [pairs[0][1]]), 'count_', [])      # number of elements (of characters for a `str`)
             for _, ys in pairs[1:]:
-                hi = ('minlen', hi, ('mcall', ('path', [ys]), 'len', []))
+                hi = ('minlen', hi, ('mcall', ('path', [ys]), 'count_', []))
             return self.stmts([('for', idx, ('lit', 0, 'usize'), hi, rev, nb)] + rest,
                               env, exp, result)
         if k == 'for':
@@ -2932,6 +2956,8 @@ class Emitter:
                 return any(effectful(x) for x in node)
             if isinstance(node, tuple):
                 return bool(node) and (node[0] in ('assign', 'refmut', 'return', 'continue', 'break')
+                                       or (node[0] == 'mcall' and node[2] == 'split_at'
+                                           and getattr(self, 'str_params', None) == 'panics')     # can panic: leaves the function
                                        or any(effectful(x) for x in node))
             return False
 
@@ -3139,7 +3165,9 @@ class Emitter:
                     out.append(('let', st[1], st[2], ('path', [fresh_])))
                     continue
                 if st[0] == 'let' and isinstance(st[3], tuple) and st[3] and (
-                        (st[3][0] == 'if' and st[3][3] is not None) or st[3][0] == 'block') and effectful(st[3]) \
+                        (st[3][0] == 'if' and st[3][3] is not None) or st[3][0] == 'block'
+                        or (st[3][0] == 'match' and any(b_[0] == 'block' and b_[1] and b_[1][-1][0] in ('return', 'continue', 'break')
+                                                        for _, b_ in st[3][2]))) and effectful(st[3]) \
                         and unchecked(st[3]) is None:
                     cnt[0] += 1
                     names = self.pat_names(st[1])
@@ -3151,7 +3179,7 @@ class Emitter:
                     for n in names:
                         if n != '_':
                             out.append(('let', ('pid', fresh[n]), None, ('uninit',)))
-                    body = into(('block', [('tail', st[3])]) if st[3][0] == 'if' else st[3], pat_expr(tp))
+                    body = into(('block', [('tail', st[3])]) if st[3][0] in ('if', 'match') else st[3], pat_expr(tp))
                     out += stmts(body[1])
                     out.append(('let', st[1], st[2], pat_expr(tp)))
                     continue
@@ -3201,6 +3229,8 @@ class Emitter:
                 if node[0] == 'mcall' and node[2] in ('expect', 'unwrap'):
                     return True
                 if node[0] in ('assert', 'panic'):
+                    return True
+                if node[0] == 'mcall' and node[2] == 'split_at' and getattr(self, 'str_params', None) == 'panics':
                     return True
                 if node[0] == 'call' and node[1] == ['Self', 'from'] and getattr(self, 'uint_mode', False) == 'value':
                     return True
@@ -3375,6 +3405,10 @@ PRELUDE_STR = '''/-! `str` operations on the list of a string's code points (han
 namespace Rs
 /-- number of bytes of the UTF-8 encoding of a code point -/
 def utf8Size (c : Nat) : Nat := if c < 0x80 then 1 else if c < 0x800 then 2 else if c < 0x10000 then 3 else 4
+/-- `str::len()`: the number of bytes of the UTF-8 encoding -/
+def utf8Len : List Nat → Nat
+  | [] => 0
+  | c :: cs => utf8Size c + utf8Len cs
 /-- `str::is_char_boundary(k)`: byte offset `k` is the start of a character or the end of the string -/
 def isCharBoundary : List Nat → Nat → Bool
   | _, 0 => true
@@ -3440,6 +3474,7 @@ def translate(items, namespace='Ruint.Gen', imports=('Ruint.Gen.Prelude',), fns=
             em.uint_mode = it.get('uint') or False     # True: limb lists; 'value': a Uint is its numeric value
             em.file_text = src
             em.str_params = it.get('str_params')
+            em.str_vars = it.get('str_vars', ())
             em.externs = it.get('externs', {})
             em.call_alias = it.get('call_alias', {})
             em.panic_externs = it.get('panic_externs', ())
@@ -3948,7 +3983,14 @@ def str_items(repo):
 
 def macro_items(repo):
     """`pad_limbs` of the `uint!` proc macro (ruint-macro/src/lib.rs): trim / pad to the limb count and the range check"""
-    return [{'file': repo + '/ruint-macro/src/lib.rs', 'fn': 'pad_limbs', 'lean': 'macro_pad_limbs', 'group': 'macro'}]
+    f = repo + '/ruint-macro/src/lib.rs'
+    # `parse_digits`: the error strings (`format!(..)`) are the codes (0, c, 0) "Invalid character" / (1, c, base) "Invalid digit"
+    rw = [(r'format!\("Invalid character \'\{c\}\'"\)', '(0u64, c as u64, 0u64)'),
+          (r'format!\(\s*"Invalid digit \{c\} in base \{base\}[^"]*"\s*\)', '(1u64, c as u64, base as u64)'),
+          (r'-> Result<Vec<u64>, String>', '-> Result<Vec<u64>, (u64, u64, u64)>')]
+    return [{'file': f, 'fn': 'pad_limbs', 'lean': 'macro_pad_limbs', 'group': 'macro'},
+            {'file': f, 'fn': 'parse_digits', 'lean': 'macro_parse_digits', 'group': 'macro2', 'rewrite': rw,
+             'str_params': 'panics', 'str_vars': ('value', 'digits', 'prefix', 'remainder')}]
 
 
 def log_value_items(repo):
@@ -4025,7 +4067,8 @@ GROUPS = [('core', 'Words', ('Ruint.Gen.Prelude',)),
           ('facade', 'WordsFacade', ('Ruint.Gen.WordsUint', 'Ruint.Gen.WordsUintDiv', 'Ruint.Gen.WordsUintMod', 'Ruint.Gen.WordsIntShift',
                                      'Ruint.Gen.WordsBytes', 'Ruint.Gen.WordsConv', 'Ruint.Gen.WordsConv2')),
           ('der', 'WordsDer', ('Ruint.Gen.WordsBytes',)),
-          ('str', 'WordsStr', ('Ruint.Gen.WordsRadix', 'Ruint.Gen.PreludeRes', 'Ruint.Gen.PreludeStr'))]
+          ('str', 'WordsStr', ('Ruint.Gen.WordsRadix', 'Ruint.Gen.PreludeRes', 'Ruint.Gen.PreludeStr')),
+          ('macro2', 'WordsMacro2', ('Ruint.Gen.Prelude', 'Ruint.Gen.PreludeRes', 'Ruint.Gen.PreludeStr'))]
 
 
 def translate_all(repo):
